@@ -75,7 +75,9 @@ def rule_units(tier):
     for name, text in harvest.cls_pairs():
         name = str(name)
         text = str(text)
-        if name.startswith("Cpp_") or (name, text) in INVALID_INPUTS:
+        if name.startswith("Cpp_") or (name, text) in INVALID_INPUTS or name == "Open_Stmt":
+            # Open_Stmt: the repository's inputs are mostly deliberately invalid (missing / duplicate unit)
+            # and the f2008 class checks more; OPEN is covered by the program-level templates
             continue
         pos = [i for i, ch in enumerate(text) if ch.isalnum()]
         if not pos:
